@@ -61,19 +61,48 @@ def rejected_release_changes_nothing(ctx):
                + ', '.join(short(m.ast, 50) for m in bad[:2]))
     # the two rejections exist: unknown tag, and unknown/never-issued token
     texts = ' '.join(norm(r.ast.exc) for r in raises)
-    ctx.ob(f, 'unknown tag is rejected', any('tag not in self._tag_sequences' in t for r in raises for t, pol in q.guard_texts(r.ast) if pol), 'an unknown tag must raise ValueError')
-    # token window check: lowest <= token < max
-    ok = False
-    for n in own_nodes(f.node):
-        if isinstance(n, ast.Compare) and len(n.ops) == 2 and all(isinstance(o, ast.Lt) for o in n.ops):
-            left = norm(q.inline_locals(f, n.left))
-            right = norm(q.inline_locals(f, n.comparators[1]))
-            if '_lowest_sequence' in left and ('_tag_sequences' in right or 'max_sequence' in norm(n.comparators[1])):
-                ok = True
+    tagp, tokp = (f.params + [None, None, None])[1:3]
+
+    def _unknown_tag_guard(r):
+        for e, pol in q.guards(r):
+            if not isinstance(e, ast.Compare) or len(e.ops) != 1:
+                continue
+            op, l, rr = e.ops[0], e.left, e.comparators[0]
+            if isinstance(op, (ast.In, ast.NotIn)) and norm(l) == tagp and norm(rr) == 'self._tag_sequences' and (isinstance(op, ast.NotIn) == pol):
+                return True
+            if isinstance(op, (ast.Is, ast.IsNot)) and isinstance(rr, ast.Constant) and rr.value is None and (isinstance(op, ast.Is) == pol):
+                v = q.resolve_local(f, l)
+                if norm(v) == f'self._tag_sequences.get({tagp})':
+                    return True
+        return False
+    ctx.ob(f, 'unknown tag is rejected', any(_unknown_tag_guard(r.ast) for r in raises), 'an unknown tag must raise ValueError')
+    # token window check on the branch that queues a pending release: lowest < token and token < next sequence of the tag
+    pend = [c for c in own_calls(f.node) if isinstance(c.func, ast.Attribute) and c.func.attr in ('append', 'add', 'insert', 'heappush')
+            and any(isinstance(a, ast.Name) and a.id == tokp for a in c.args)]
+    ok = bool(pend)
+    for c in pend:
+        atoms = []
+        for e, pol in q.guards(c):
+            stack = [(e, pol)]
+            while stack:
+                x, p_ = stack.pop()
+                if isinstance(x, ast.BoolOp) and isinstance(x.op, ast.And) and p_:
+                    stack += [(v, True) for v in x.values]
+                else:
+                    atoms.append((x, p_))
+        lo = hi = False
+        for x, p_ in atoms:
+            if p_ and isinstance(x, ast.Compare) and len(x.ops) == 1 and isinstance(x.ops[0], ast.Lt):
+                l_, r_ = norm(q.inline_locals(f, x.left)), norm(q.inline_locals(f, x.comparators[0]))
+                if '_lowest_sequence' in l_ and norm(x.comparators[0]) == tokp:
+                    lo = True
+                if norm(x.left) == tokp and '_tag_sequences' in r_:
+                    hi = True
+        ok = ok and lo and hi
     ctx.ob(f, 'pending release only for lowest < token < next sequence', ok, 'a never-issued or already-released token must not be queued as pending')
 
 
-@rule('C12.c', ['C12'], floor=10)
+@rule('C12.c', ['C12', 'C11'], floor=10)
 def bookkeeping_under_lock(ctx):
     """Every read or write of _count/_tag_sequences/_lowest_sequence/_pending_release in
     SlidingWindowSemaphore (outside __init__) lies inside a region holding the
@@ -131,6 +160,19 @@ def semaphores_only_through_executor(ctx):
     ok = bool(rets) and all(isinstance(x.value, ast.Name) and any('_tag_sequences[tag]' in norm(v) for _, v in q.local_defs(f, x.value.id) if isinstance(v, ast.AST)) for x in rets)
     ctx.ob(f, 'acquire returns the tag\'s next sequence number', ok, 'the token must be the per-tag sequence number read before it is advanced')
     incs = [x for x in own_nodes(f.node) if isinstance(x, ast.AugAssign) and norm(x.target) == 'self._tag_sequences[tag]' and isinstance(x.op, ast.Add) and norm(x.value) == '1']
+    # the same advance written from the value read just before: n = self._tag_sequences[tag] ... self._tag_sequences[tag] = n + 1
+    # (n has that one definition and nothing stores the entry between the read and the write)
+    for x in own_nodes(f.node):
+        if isinstance(x, ast.Assign) and len(x.targets) == 1 and norm(x.targets[0]) == 'self._tag_sequences[tag]' and isinstance(x.value, ast.BinOp) \
+                and isinstance(x.value.op, ast.Add) and isinstance(x.value.left, ast.Name) and norm(x.value.right) == '1':
+            defs = q.local_defs(f, x.value.left.id)
+            if len(defs) == 1 and isinstance(defs[0][1], ast.AST) and norm(defs[0][1]) == 'self._tag_sequences[tag]':
+                between = [y for y in own_nodes(f.node) if defs[0][0]._pos < getattr(y, '_pos', -1) < x._pos
+                           and isinstance(y, (ast.Subscript, ast.Attribute)) and not isinstance(y.ctx, ast.Load) and '_tag_sequences' in norm(y)]
+                waits_between = [y for y in own_nodes(f.node) if defs[0][0]._pos < getattr(y, '_pos', -1) < x._pos and isinstance(y, ast.Call)
+                                 and isinstance(y.func, ast.Attribute) and y.func.attr == 'wait']
+                if not between and not waits_between:
+                    incs.append(x)
     decs = [x for x in own_nodes(f.node) if isinstance(x, ast.AugAssign) and norm(x.target) == 'self._count' and isinstance(x.op, ast.Sub) and norm(x.value) == '1']
     g = ctx.cfg(f)
     once = len(incs) == 1 and len(decs) == 1 and not q.in_loop(incs[0]) and not q.in_loop(decs[0]) \
@@ -200,7 +242,7 @@ def rejected_acquire_changes_nothing(ctx):
     ctx.ob(init, 'defaultdict attributes of the semaphore', True, f'{sorted(dd)}', trivial=True)
 
 
-@rule('C12.h', ['C12', 'C13', 'C04'], floor=1)
+@rule('C12.h', ['C12', 'C13', 'C04', 'C11'], floor=1)
 def nothing_decided_before_a_wait_is_used_after_it(ctx):
     """A Condition.wait() gives the lock up: whatever a function read from the shared state
     before it went to sleep may be false when it wakes.  In every function of the package
